@@ -76,9 +76,10 @@ func (o *objectGoMapReflect) getIdx(idx valueInt, receiver Value) Value {
 func (o *objectGoMapReflect) getOwnPropStr(name unistring.String) Value {
 	if v := o._getStr(name.String()); v != nil {
 		return &valueProperty{
-			value:      v,
-			writable:   true,
-			enumerable: true,
+			value:        v,
+			writable:     true,
+			enumerable:   true,
+			configurable: true, // map entries can be deleted
 		}
 	}
 	return o.objectGoReflect.getOwnPropStr(name)
@@ -87,9 +88,10 @@ func (o *objectGoMapReflect) getOwnPropStr(name unistring.String) Value {
 func (o *objectGoMapReflect) getOwnPropIdx(idx valueInt) Value {
 	if v := o._get(idx); v != nil {
 		return &valueProperty{
-			value:      v,
-			writable:   true,
-			enumerable: true,
+			value:        v,
+			writable:     true,
+			enumerable:   true,
+			configurable: true, // map entries can be deleted
 		}
 	}
 	return o.objectGoReflect.getOwnPropStr(idx.string())
